@@ -342,14 +342,16 @@ pub fn precise_diff<'py>(
                     day_diff += days_in_last_month;
                 }
             }
-            Ordering::Equal => {
-                // We have exactly a full month
+            Ordering::Equal if dtinfo1.day == days_in_last_month => {
+                // We have exactly a full month: the start is the last day
+                // of the previous (longer) month and the end is the last day
+                // of this one, so adding the months clamps onto the end.
                 // We remove the days difference
                 // and add one to the months difference
                 day_diff = 0;
                 month_diff += 1;
             }
-            Ordering::Greater => {
+            Ordering::Equal | Ordering::Greater => {
                 // We have a full month
                 day_diff += days_in_last_month;
             }
